@@ -17,8 +17,9 @@ double spurious_full_p = 0;
 static Rng frng;
 static bool active = false;
 
+static void reset_model_head();
 void reset_queue_monitor() {
-    refq.clear(); queue_violations.clear();
+    refq.clear(); queue_violations.clear(); reset_model_head();
     n_alloc_ok = n_alloc_fail = n_wrap = n_reset = n_spurious_full = max_count = 0;
 }
 void begin_run(const Plan &p) {
@@ -38,24 +39,29 @@ static void note_state(struct jls_mrb_s *q) {
     if (queue_states.size() < 2000000) queue_states.insert(h);
     if (q->count > max_count) max_count = q->count;
 }
-// the largest contiguous free region according to the reference deque
+// Reference view of free space. Occupied: every un-popped message [off-4, off+size) and, after a wrap whose marker the consumer
+// has not passed yet, the dead tail [marker, capacity). The queue can only place a message at its head or (wrapping) at 0.
+static uint32_t model_head = 0; static int64_t marker_pos = -1;
 static uint32_t largest_free(uint32_t cap) {
-    if (refq.empty()) return cap;
-    uint32_t first = refq.front().off - 4, last_end = refq.back().off + refq.back().size;
-    bool wrapped = refq.back().off < refq.front().off;
-    if (wrapped) return first > last_end ? first - last_end : 0;
-    uint32_t a = cap > last_end ? cap - last_end : 0, b = first;
+    std::vector<std::pair<uint32_t, uint32_t>> occ;
+    for (auto &q : refq) occ.push_back({q.off - 4, q.off + q.size});
+    if (marker_pos >= 0) occ.push_back({(uint32_t) marker_pos, cap});
+    if (occ.empty()) return cap;
+    auto gap_at = [&](uint32_t pos) { uint32_t end = cap; for (auto &o : occ) { if (o.first <= pos && pos < o.second) return 0u; if (o.first >= pos && o.first < end) end = o.first; } return end - pos; };
+    uint32_t a = gap_at(model_head >= cap ? 0 : model_head), b = gap_at(0);
     return a > b ? a : b;
 }
 }
 
+namespace mon { static void reset_model_head() { model_head = 0; marker_pos = -1; } }
 using namespace mon;
+uint32_t mon_fsr_bits[256];
 
 extern "C" {
 
 void mon_jls_mrb_init(struct jls_mrb_s *self, uint8_t *buffer, uint32_t buffer_size) {
     jls_mrb_init(self, buffer, buffer_size);
-    refq.clear();
+    refq.clear(); reset_model_head();
 }
 
 uint8_t *mon_jls_mrb_alloc(struct jls_mrb_s *self, uint32_t size) {
@@ -70,7 +76,10 @@ uint8_t *mon_jls_mrb_alloc(struct jls_mrb_s *self, uint32_t size) {
         ++n_alloc_fail; sim::fault_counts[F_QUEUE_FULL]++;
         sim::event(EV_MON, 1, size, -1);
         uint32_t lf = largest_free(cap);
-        if ((uint64_t) size + 12 <= lf) qviol("alloc_failed_but_fits", "size=%u cap=%u head=%u tail=%u largest_free=%u queued=%zu", size, cap, head0, tail0, lf, refq.size());
+        if ((uint64_t) size + 12 <= lf) {
+            char q0[64] = ""; if (!refq.empty()) snprintf(q0, sizeof q0, " front=(%u,%u) back=(%u,%u)", refq.front().off, refq.front().size, refq.back().off, refq.back().size);
+            qviol("alloc_failed_but_fits", "size=%u cap=%u head=%u tail=%u count=%u largest_free=%u queued=%zu%s", size, cap, head0, tail0, self->count, lf, refq.size(), q0);
+        }
         note_state(self);
         return nullptr;
     }
@@ -84,8 +93,11 @@ uint8_t *mon_jls_mrb_alloc(struct jls_mrb_s *self, uint32_t size) {
             uint32_t qs = q.off - 4, qe = q.off + q.size;
             if (s < qe && qs < e) { qviol("region_overlaps_unpopped", "new=[%u,%u) old=[%u,%u) cap=%u", s, e, qs, qe, cap); break; }
         }
-        if (!refq.empty() && (uint32_t) off < refq.back().off + refq.back().size && (uint32_t) off - 4 < head0) { ++n_wrap; sim::fault_counts[F_QUEUE_WRAP]++; }
-        else if (refq.empty() && head0 == tail0 && head0 != 0 && off == 4) { ++n_reset; sim::fault_counts[F_QUEUE_RESET]++; }
+        if (off == 4 && head0 != 0) {
+            if (self->tail == 0) { ++n_reset; sim::fault_counts[F_QUEUE_RESET]++; marker_pos = -1; }    // empty queue: pointers were reset
+            else { ++n_wrap; sim::fault_counts[F_QUEUE_WRAP]++; marker_pos = head0; }                 // wrap marker written at the old head
+        }
+        model_head = e >= cap ? 0 : e;
     }
     refq.push_back(QEntry{(uint32_t) off, size});
     uint64_t seq = sim::event(EV_MON, 0, size, off);
@@ -101,6 +113,7 @@ static void check_head(const char *what, struct jls_mrb_s *self, uint8_t *p, uin
     }
     if (refq.empty()) { qviol("phantom_message", "%s returned a message from an empty queue (size=%u)", what, size); return; }
     int64_t off = p - self->buf;
+    if (off == 4) marker_pos = -1;      // the consumer has passed the wrap marker
     if (off != (int64_t) refq.front().off || size != refq.front().size)
         qviol("wrong_message", "%s returned off=%lld size=%u, expected off=%u size=%u", what, (long long) off, size, refq.front().off, refq.front().size);
 }
@@ -148,7 +161,6 @@ int32_t mon_jls_wr_user_data(struct jls_wr_s *self, uint16_t chunk_meta, enum jl
     size_t i = applied.size() - 1;
     return end_applied(i, jls_wr_user_data(self, chunk_meta, st, data, size));
 }
-uint32_t mon_fsr_bits[256];
 int32_t mon_jls_wr_fsr(struct jls_wr_s *self, uint16_t signal_id, int64_t sample_id, const void *data, uint32_t n) {
     Applied &a = begin_applied(OP_FSR); a.sig = signal_id; a.a = sample_id; a.n = n;
     uint32_t bits = signal_id < 256 ? mon_fsr_bits[signal_id] : 0;
